@@ -29,6 +29,9 @@ pub fn run(ctx: &Ctx) -> (Vec<Case>, String, bool, BTreeMap<String, String>) {
     // configuration accesses at every offset around the end of the device's window (MMIO and PCI):
     // nothing outside the window is touched, whatever lengths the device advertises
     extra.extend(crate::c13_config::bounds_cases(ctx));
+    // construction with a DMA allocation failing at every point, and drop: nothing is released that was
+    // not allocated, nothing twice (C09's stream, its ledger failures)
+    extra.extend(crate::c09_drop::fault_cases(ctx));
     for c in extra.iter_mut() {
         c.oracle_failures.retain(|f| relevant(f));
         for f in c.oracle_failures.iter_mut() {
